@@ -751,6 +751,10 @@ def task_concrete():
     r = ob.guarded(c05_concrete.check, cfg)
     col.concrete('solver_log_level_sequence_matches_documented_cycle', r['reproduced'] is False, r,
                  bounded=f'{len(cfg)} (shape, cycle, semicoarsening, clevel) configurations, 3 fine cycles each, verb=5 log', cases=r['cases'])
+    r = ob.guarded(c05_concrete.check_preconditioner_directions)
+    col.concrete('directions_advance_cyclically_across_the_calls_of_multigrid_as_preconditioner', r['reproduced'] is False, r,
+                 bounded='16^3 grid, bicgstab + multigrid, F and V cycles, pattern pairs (12, True), (True, 47), (102, 4567); recorded at solver.restriction / solver.smoothing on the fine grid',
+                 cases=r.get('cases', 0))
     return col.pack()
 
 
@@ -764,6 +768,8 @@ def tasks(tier):
         t.append(('contracts.c05', 'task_multigrid_fine_entry', dict(cycle=cyc)))
         for scc, lrc in ((False, False), (True, True), (True, False)):
             t.append(('contracts.c05', 'task_multigrid_fine', dict(cycle=cyc, sc_cycling=scc, lr_cycling=lrc)))
+    # multigrid as pre-conditioner: krylov() and its wrapper write nothing of the cycling state (exploration of contracts/c01.py, that clause only)
+    t += [('contracts.c01', 'task_krylov', dict(cycle='F', prop=PROP)), ('contracts.c01', 'task_krylov', dict(cycle='V', prop=PROP))]
     return t
 
 
